@@ -280,6 +280,28 @@ pub enum Adapter {
     RwLock,
 }
 
+/// Swarm-style variation for the daemon family: in a third of the runs every socket call of the
+/// library endpoints (the daemon's request connection, the real Frontend where one is used, the
+/// backend-request channel) may be shortened by the simulator, as a kernel may do with any stream;
+/// in a quarter a worker's epoll_wait may fail with EINTR (a signal), up to four times.
+/// The properties of this family must hold regardless (C08 is the property about that).
+pub fn swarm_short_io(sim: &Sim) {
+    let (on, rate, eintr) = sim.with_w(|t| (t.chance(1, 3), 100 + t.draw(3) * 100, t.chance(1, 4)));
+    let mut fc = crate::sched::FaultCfg::default();
+    if on {
+        fc.short_send = rate;
+        fc.short_recv = rate;
+        sim.probe("run_with_short_socket_io");
+    }
+    if eintr {
+        // a signal may interrupt a worker's epoll_wait at any time: it has to go back to waiting
+        fc.point_eintr = 300;
+        fc.eintr_budget = 4;
+        sim.probe("run_with_epoll_eintr");
+    }
+    sim.st().faults = fc;
+}
+
 pub static SOCK_COUNTER: AtomicU64 = AtomicU64::new(0);
 
 pub fn sock_path() -> PathBuf {
